@@ -652,10 +652,75 @@ def check_derivative(ctx):
                   f"gives {kind} {val}", key="derivative unwrapped")
 
 
+def r08g(ctx):
+    """The index primitives the model takes for granted, evaluated from the library source: minimize_tensor_indices on all
+    index tuples of length <= 3 over {i, j, k, a, b} and get_lowest_avail_indices on a table of requests."""
+    import itertools
+    rule = "R08g"
+    fn = ctx.model.fn("indices:minimize_tensor_indices")
+    names = ["i", "j", "k", "a", "b"]
+    targets_list = [{}, {("occ", ""): ["j"]}, {("occ", ""): ["i"], ("virt", ""): ["a"]}, {("occ", ""): ["k", "j"]}]
+    w = tmodel.World()
+    b = tmodel.Binding(w)
+    hooks = {"Permutation": lambda sx, a, kw: tuple(a), "PermutationProduct": lambda sx, a, kw: tuple(sx.iterate(a[0], None))}
+    sx = b.make(ctx.model, "minimize_tensor_indices", extra_hooks=hooks, inline=lambda q: q not in (
+        "indices:get_lowest_avail_indices", "indices:get_symbols"))
+    n = 0
+    for length in (1, 2, 3):
+        for tpl in itertools.product(names, repeat=length):
+            for tg in targets_list:
+                n += 1
+                label = f"{''.join(tpl)} targets={sorted(x for v in tg.values() for x in v)}"
+                outs = sx.run(fn, lambda: dict(tensor_indices=w.indices([ix(x) for x in tpl]),
+                                               target_idx_names={k: list(v) for k, v in tg.items()}))
+                if len(outs) != 1 or outs[0].kind != "return":
+                    ctx.bad(rule, fn, f"minimize_tensor_indices on {label}: {outs}", key=f"min {label}")
+                    continue
+                try:
+                    res, perms = outs[0].value
+                    out = [r.attrs["_ix"] for r in res]
+                    seq = [(p.attrs["_ix"], q.attrs["_ix"]) for p, q in perms]
+                except (TypeError, ValueError, AttributeError, KeyError):
+                    ctx.bad(rule, fn, f"minimize_tensor_indices on {label} returns {outs[0].value!r}", key=f"min {label}")
+                    continue
+                cur = [ix(x) for x in tpl]
+                for p, q in seq:
+                    cur = [q if c == p else p if c == q else c for c in cur]
+                # expected: targets stay, the others get the lowest non-target names in order of first appearance
+                tnames = {x for v in tg.values() for x in v}
+                free = {sp: [c for c in talg.SPACES[sp] if c not in tnames] for sp in talg.SPACES}
+                wm = {}
+                for x in tpl:
+                    if x not in wm:
+                        wm[x] = x if x in tnames else free[talg.space_of(x)].pop(0)
+                want = [ix(wm[x]) for x in tpl]
+                model = talg.minimize([ix(x) for x in tpl], {k: tuple(v) for k, v in tg.items()})[0]
+                ok = out == want and cur == out and list(model) == want
+                ctx.check(rule, fn, ok, f"{label} -> {''.join(wm[x] for x in tpl)}",
+                          f"minimize_tensor_indices({label}) gives {''.join(x[0] for x in out)} (its permutations give "
+                          f"{''.join(x[0] for x in cur)}); the lowest unused non-target names in order of first appearance are "
+                          f"{''.join(x[0] for x in want)}", key=f"min {label}")
+    ctx.floor(rule, "index tuples minimised", n, 400)
+    gl = ctx.model.fn("indices:get_lowest_avail_indices")
+    sx = b.make(ctx.model, "get_lowest_avail_indices", no_hooks=("get_lowest_avail_indices",))
+    m = 0
+    for space, letters in talg.SPACES.items():
+        for cnt in (0, 1, 2, 3, 9):
+            for used in ([], [letters[0]], [letters[1], letters[0]], list(letters), list(letters[:3]) + [letters[0] + "1"],
+                         [letters[2] + "7"]):
+                m += 1
+                outs = sx.run(gl, lambda: dict(n=cnt, used=list(used), space=space))
+                want = talg.lowest_avail(cnt, used, space)
+                got = outs[0].value if len(outs) == 1 and outs[0].kind == "return" else outs
+                ctx.check(rule, gl, got == want, f"get_lowest_avail_indices({cnt}, {used}, {space}) = {want}",
+                          f"get_lowest_avail_indices({cnt}, {used}, {space}) gives {got}; the {cnt} lowest unused names are {want}",
+                          key=f"lowest {space} {cnt} {''.join(used)}")
+    ctx.floor(rule, "requests for lowest available names", m, 60)
+
+
 def run(ctx):
     if any(ctx.want(r) for r in ("R14a", "R14b", "R14c", "R14d", "R14e")):
         check_remove(ctx)
         check_derivative(ctx)
     if ctx.want("R08g"):
-        from . import c08
-        c08.r08g(ctx)
+        r08g(ctx)
